@@ -157,6 +157,8 @@ def oracleLineC14 (toks out : List String) : String :=
         else if (if res == "ok" then "ok" else "err " ++ (res.drop 4).toString) != pred then "fail generator-differs-from-model:" ++ res ++ "/" ++ pred
         else if res == "ok" then "pass"
         else if res == "err:notInTrialParameters" ∧ unconsumed then "known C14-parameter-not-consumed-by-template"
+        else if e.nas && e.params.isEmpty && (res == "err:notInTrialParameters" || res == "err:notInAssignment") then
+          "known C14-nas-trial-parameters-unchecked"
         else if res == "err:illegalMeta" ∧ metaUnresolvable then "known C14-unresolvable-trial-metadata-reference"
         else "fail admitted-experiment-cannot-instantiate-its-template:" ++ res)
       if e.algorithm.isSome && !e.algoKnown then "fail admitted-with-an-algorithm-katib-config-does-not-define"
